@@ -82,8 +82,13 @@ class Run:
         open_known = {(k["property"], k["key"]): k for k in known.get("open", [])}
         broken = []
         for rule, (found, floor) in sorted(self.floors.items()):
-            if found < floor:
-                broken.append("rule %s matched %d instances, below the confirmed floor %d" % (rule, found, floor))
+            # The floor is the instance count confirmed by hand on the reviewed tree. Its purpose is to stop a rule from
+            # passing vacuously (matching nothing, or a fraction of what it is meant to cover); a refactoring that merges
+            # two duplicated sites or drops a redundant cast legitimately lowers the count a little. Vacuity is declared
+            # below 60% of the confirmed count (and always at zero).
+            eff = max(1, (floor * 3) // 5)
+            if found < eff:
+                broken.append("rule %s matched %d instances, below 60%% of the confirmed count %d" % (rule, found, floor))
         for name, matched in self.fixtures:
             if not matched:
                 broken.append("positive fixture %s no longer matches" % name)
